@@ -1,3 +1,57 @@
-From TM Require Import Base Frame.
-Theorem C02_placeholder : fc_value (fc_new 1) = 1.
-Proof. reflexivity. Qed.
+(* C02 -- responses and exceptions reach the caller exactly as the service produced them. *)
+From TM Require Import Base Frame Pdu Crc RtuCodec TcpCodec Framed Client Server Spec PduEncode
+  FramedProofs TcpProofs RtuProofs RtuCarried StreamProofs ClientProofs Histories ServerProofs TypedProofs EndToEnd.
+
+(* 1. response / exception encoders are the spec encoders *)
+Theorem C02_rsp_pdu_is_spec : forall m r, rsp_ok r = true -> rsp_size r <= 253 ->
+  enc_rsp m r = Val (spec_rsp_pdu r) /\ len (spec_rsp_pdu r) = rsp_size r.
+Proof. exact enc_rsp_spec. Qed.
+Theorem C02_exc_pdu_is_spec : forall m f e, fc_value f < 0x80 ->
+  enc_exc m {| exr_function := f; exr_exception := e |} = Val (spec_exc_pdu (fc_value f) (ex_value e)).
+Proof. exact enc_exc_spec. Qed.
+
+(* 2. the client-side decoder inverts them: register data unchanged, bit data in order and padded with
+   false to a whole byte ([pad_rsp]); exceptions with the same numeric code *)
+Theorem C02_decode_encode_rsp : forall r, rsp_size r <= 253 -> canonical_rsp r = true -> fc_value (rsp_fc r) < 0x80 ->
+  dec_rsp_pdu (spec_rsp_pdu r) = Val (RROk (pad_rsp r)).
+Proof. exact dec_rsp_pdu_spec. Qed.
+Theorem C02_decode_encode_exc : forall fc code, fc < 0x80 ->
+  dec_rsp_pdu (spec_exc_pdu fc code) = Val (RRExc {| exr_function := fc_new fc; exr_exception := ex_new code |}).
+Proof. exact dec_rsp_pdu_exc. Qed.
+
+(* 3. the server writes exactly one frame under the request's header (C07) which is a valid frame for
+   the client *)
+Theorem C02_response_frame_valid_tcp : forall tid uid r,
+  rsp_size r <= 253 -> canonical_rsp r = true -> fc_value (rsp_fc r) < 0x80 -> tid < 65536 -> uid < 256 ->
+  valid_rsp_frame (tcp_frame tid uid (spec_rsp_pdu r)) ((tid, uid), RROk (pad_rsp r)).
+Proof. exact response_frame_valid_tcp. Qed.
+Theorem C02_response_frame_valid_rtu : forall s r,
+  rsp_size r <= 253 -> canonical_rsp r = true -> fc_value (rsp_fc r) < 0x80 -> rtu_rsp_supported r = true ->
+  valid_rtu_rsp (rtu_frame s (spec_rsp_pdu r)) ((0, s), RROk (pad_rsp r)).
+Proof. exact response_frame_valid_rtu. Qed.
+Theorem C02_exception_frame_valid_tcp : forall tid uid fc code, fc < 0x80 -> tid < 65536 -> uid < 256 ->
+  valid_rsp_frame (tcp_frame tid uid (spec_exc_pdu fc code))
+                  ((tid, uid), RRExc {| exr_function := fc_new fc; exr_exception := ex_new code |}).
+Proof. exact exception_frame_valid_tcp. Qed.
+Theorem C02_exception_frame_valid_rtu : forall s fc code, 1 <= fc -> fc <= 0x2B ->
+  valid_rtu_rsp (rtu_frame s (spec_exc_pdu fc code))
+                ((0, s), RRExc {| exr_function := fc_new fc; exr_exception := ex_new code |}).
+Proof. exact exception_frame_valid_rtu. Qed.
+
+(* 4. the call that issued the request returns that value, for any chunking of the reply frame, when the
+   reply carries the request's header and numerically the request's function code -- incl. raw custom
+   requests whose code has a named FunctionCode variant (finding F5, repaired) *)
+Theorem C02_client_returns : forall p m st req bg f rr cs rest w bg1,
+  framed st = true -> clean st -> reof (rst st) = false ->
+  send (client_enc p m (req_hdr p st) req) (wio_ st) bg = (SOk, w, bg1, false) ->
+  rq st = datas cs -> Forall nonempty cs -> concat cs = f ++ rest -> client_valid p f (req_hdr p st, rr) ->
+  fc_value (rr_fc rr) = fc_value (req_fc req) ->
+  fst (call p m st req bg) = match rr with RROk r => CROk r | RRExc e => CRExc (exr_exception e) end.
+Proof. exact exchange_returns_reply. Qed.
+
+(* 5. the typed bit reads return exactly the requested count, taken in order from the reply *)
+Theorem C02_typed_bits_exact : forall req r bs,
+  typed_post req r = TRBits bs ->
+  exists a q rb, (req = ReqReadCoils a q /\ r = RspReadCoils rb \/ req = ReqReadDiscreteInputs a q /\ r = RspReadDiscreteInputs rb)
+                 /\ len bs = q /\ bs = firstn (N.to_nat q) rb.
+Proof. exact typed_read_exact_bits. Qed.
